@@ -201,13 +201,15 @@ func (c *pchecker) command(what string, cm ast.Command) (ast.Pos, ast.Pos) {
 	case *ast.Cmd:
 		if sc, ok := x.Expr.(*ast.SimpleCmd); !ok || len(sc.Assigns)+len(sc.Args) > 0 {
 			xp, xe := c.node(what+".Expr", x.Expr)
-			c.within(what+".Expr", xp, xe, p, e, hd)
+			c.within(what+".Expr", xp, xe, p, e, false)
 		}
 		c.expr(what, x.Expr)
 		for i, r := range x.Redirs {
 			w := fmt.Sprintf("%s.Redir[%d]", what, i)
 			rp, re := c.redir(w, r)
-			c.within(w, rp, re, p, e, hd)
+			// a command holds all its redirections, here-documents included,
+			// wherever on the command line they stand
+			c.within(w, rp, re, p, e, false)
 			if i > 0 && !x.Redirs[i-1].Pos().Before(rp) {
 				c.errf("%s: starts at %s, not after the previous redirection at %s", w, ps(rp), ps(x.Redirs[i-1].Pos()))
 			}
@@ -590,6 +592,11 @@ func CheckPositions(src string, cmds []ast.Command, comments []*ast.Comment) Pos
 			c.errf("comment[%d]: at %s, not after the previous comment at %s", i, ps(cm.Hash), ps(prev))
 		}
 		prev = cm.Hash
+		// End() is pinned to leave out the "#" (the property excludes it);
+		// still it is a position on the comment's own line, in characters
+		if e := cm.End(); e.Before(cm.Hash) || !c.s.inside(e) {
+			c.errf("comment[%d]: End() %s is not a position of the comment at %s (text %q)", i, ps(e), ps(cm.Hash), clip(cm.Text))
+		}
 	}
 	return PosResult{Errs: c.errs, Fields: c.n}
 }
